@@ -154,6 +154,67 @@ def path_source_cases(ctx, replay=None):
     return {"violations": viol, "disagreements": [], "coverage": {"path_source_cases": done}}
 
 
+def special_source_cases(ctx, replay=None):
+    """Sources at the edges of "has a modified time": a source that never has one (LiteralSource(v, None),
+    ModifiedTimeSource(None)) is out of date in every run, so whatever is stored downstream of it is rebuilt in every run and
+    follows its value; a source FILE whose modified time is the Unix epoch itself (timestamp 0) HAS a modified time - an old
+    one - so nothing downstream is rebuilt on its account."""
+    import os
+    import tempfile
+
+    import uberjob
+    from uberjob.stores import JsonFileStore, LiteralSource, ModifiedTimeSource, PathSource
+    viol, done = [], 0
+    cases = [replay["source_case"]] if replay else ["timeless-literal", "timeless-mts", "epoch-file", "epoch-file-optional"]
+    for kind in cases:
+        with tempfile.TemporaryDirectory() as d:
+            calls = []
+            if kind.startswith("epoch-file"):
+                data = os.path.join(d, "data.txt")
+                with open(data, "w") as fh:
+                    fh.write("v1")
+                os.utime(data, (0, 0))
+                store = PathSource(data, required=(kind == "epoch-file"))
+            elif kind == "timeless-literal":
+                store = LiteralSource(3, None)
+            else:
+                store = ModifiedTimeSource(None)
+
+            def run():
+                del calls[:]
+                plan, reg = uberjob.Plan(), uberjob.Registry()
+                src = reg.source(plan, store)
+
+                def f(v):
+                    calls.append("f")
+                    if kind.startswith("epoch-file"):
+                        with open(v) as fh:
+                            return fh.read()
+                    return [v, 6]
+                a = plan.call(f, src)
+                reg.add(a, JsonFileStore(os.path.join(d, "a.json")))
+                try:
+                    return uberjob.run(plan, registry=reg, output=a, progress=None), list(calls)
+                except Exception as e:      # noqa: BLE001
+                    return "raised %s: %s" % (type(e).__name__, str(e)[:80]), list(calls)
+            r1 = run()
+            if kind == "timeless-literal":
+                store.value = 5
+            r2 = run()
+            done += 1
+            if kind == "timeless-literal":
+                want = [([3, 6], ["f"]), ([5, 6], ["f"])]
+            elif kind == "timeless-mts":
+                want = [([None, 6], ["f"]), ([None, 6], ["f"])]
+            else:
+                want = [("v1", ["f"]), ("v1", [])]
+            if [r1, r2] != want:
+                viol.append({"property": "C05", "what": f"{kind}: two runs gave {[r1, r2]}, expected {want}",
+                             "replay_fn": "special_source", "source_case": kind})
+                break
+    return {"violations": viol, "disagreements": [], "coverage": {"special_source_cases": done}}
+
+
 def phys_structure(ctx, res):
     """The end-to-end theorems of this property stand on the model of the physical plan (`physFinal`, `physEngine`): compare
     it, node by node and keyed edge by keyed edge, with the graphs the real dry run and the real run build (the structural
@@ -173,6 +234,10 @@ def explore(ctx):
         f = files_idempotence(ctx)
         res["violations"] += f["violations"]
         res["coverage"].update(f["coverage"])
+        if not res["violations"]:
+            f = special_source_cases(ctx)
+            res["violations"] += f["violations"]
+            res["coverage"].update(f["coverage"])
         if not res["violations"]:
             f = path_source_cases(ctx)
             res["violations"] += f["violations"]
@@ -199,6 +264,9 @@ def search(ctx, broken):
 
 def replay(ctx, payload):
     w = payload.get("witness", payload)
+    if w.get("replay_fn") == "special_source":
+        r = special_source_cases(ctx, replay=w)
+        return r["violations"][0]["what"] if r["violations"] else None
     if w.get("replay_fn") == "path_source":
         r = path_source_cases(ctx, replay=w)
         return r["violations"][0]["what"] if r["violations"] else None
